@@ -18,6 +18,7 @@ import (
 	"io"
 	"io/fs"
 	"strings"
+	"sync/atomic"
 
 	zed "github.com/brimdata/super"
 	"github.com/brimdata/super/internal/verif"
@@ -37,8 +38,8 @@ import (
 
 type v14hEngine struct {
 	files  map[string][]byte
-	opened int // readers handed out by Get
-	closed int // readers closed
+	opened int   // readers handed out by Get (by the consumer's goroutine)
+	closed int32 // readers closed (by the merge's puller goroutines: atomic)
 }
 
 var _ storage.Engine = (*v14hEngine)(nil)
@@ -52,7 +53,7 @@ type v14hReader struct {
 func (r *v14hReader) Close() error {
 	if !r.closed {
 		r.closed = true
-		r.e.closed++
+		atomic.AddInt32(&r.e.closed, 1)
 	}
 	return nil
 }
@@ -386,17 +387,26 @@ var v14hSchedKeys = [][2][]int{
 func v14hPartitionScanOrder(n, kmax int) { v14hPartitionScan(n, kmax, 0) }
 
 func v14hPartitionScan(n, kmax, sched int) {
-	pat := 0
+	pat, rounds := 0, 1
 	if sched > 0 {
-		// schedules are the quantifier: concrete objects
+		// schedules are the quantifier: concrete objects; the native run
+		// repeats the experiment (under the Go scheduler a schedule-dependent
+		// counterexample shows up by repetition)
 		verif.Schedules(sched)
 		pat = verif.Choose("data", len(v14hSchedKeys))
+		rounds = verif.NativeRounds(200)
 	} else {
 		verif.Goroutines(true)
 	}
+	desc := verif.Choose("desc", 2) == 1
+	for r := 0; r < rounds; r++ {
+		v14hPartitionScanRun(n, kmax, sched, pat, desc)
+	}
+}
+
+func v14hPartitionScanRun(n, kmax, sched, pat int, desc bool) {
 	ctx := context.Background()
 	zctx := zed.NewContext()
-	desc := verif.Choose("desc", 2) == 1
 	var specA, specB []v14hVal
 	var valsA, valsB []zed.Value
 	if sched > 0 {
@@ -498,20 +508,25 @@ func v14hPartitionScan(n, kmax, sched int) {
 		}
 	}
 
-	// ties: the merged order is a function of the values, not of the order in
-	// which the partition lists its objects
-	got2, ok := v14hScan(ctx, zctx, pool, []*data.Object{objB, objA}, 2*n)
-	if !ok {
-		return
+	if sched > 1 {
+		// (preemption bound 2: one scan only)
+		verif.Assert(eng.opened == 2 && atomic.LoadInt32(&eng.closed) == 2, "object-readers-closed-at-end-of-stream")
+	} else {
+		// ties: the merged order is a function of the values, not of the order in
+		// which the partition lists its objects
+		got2, ok := v14hScan(ctx, zctx, pool, []*data.Object{objB, objA}, 2*n)
+		if !ok {
+			return
+		}
+		verif.Assert(len(got2) == len(got), "ties-deterministic/independent-of-object-list-order")
+		if len(got2) != len(got) {
+			return
+		}
+		for i := range got {
+			verif.Assert(got2[i].tag == got[i].tag, "ties-deterministic/independent-of-object-list-order")
+		}
+		verif.Assert(eng.opened == 4 && atomic.LoadInt32(&eng.closed) == 4, "object-readers-closed-at-end-of-stream")
 	}
-	verif.Assert(len(got2) == len(got), "ties-deterministic/independent-of-object-list-order")
-	if len(got2) != len(got) {
-		return
-	}
-	for i := range got {
-		verif.Assert(got2[i].tag == got[i].tag, "ties-deterministic/independent-of-object-list-order")
-	}
-	verif.Assert(eng.opened == 4 && eng.closed == 4, "object-readers-closed-at-end-of-stream")
 
 	// vacuity witnesses
 	tie, overlap := false, false
@@ -552,7 +567,7 @@ func v14hPartitionScan(n, kmax, sched int) {
 func VerifH_C14_O11_partition_scan_order() { v14hPartitionScanOrder(3, 4) }
 
 // verif:desc C08-O6s the parallel scan of a partition's overlapping objects is independent of the goroutine schedule: same run and same assertions as VerifH_C14_O11_partition_scan_order (two objects written by the real data.Writer, scanned by the real meta.newObjectsScanner = one zngio scanner + statScanner per object under merge.New with lake.ImportComparator, pulled to end of stream, then once more with the object list reversed), under EVERY schedule with at most 1 preemption (thorough tier: 2) at the channel operations, selects, closes, atomics, map accesses, lock/once/WaitGroup operations and goroutine starts of the real merge pullers, zngio scanner/parser/worker goroutines and the consumer, with a bounded free choice of which runnable goroutine continues; in addition the merged stream is exactly THE sequence the values determine (pool-key order, null/missing largest, ties by value bytes in the pool's direction): every value once, intact, same order under every schedule and for both object list orders, every object reader closed at end of stream
-// verif:bounds 2 objects of 3 values (thorough tier: 2 values, the first two of each) with concrete keys: A=1,3,(no key field) B=2,3,4, or A=2,2,null B=2,4,null (Choose); pool order asc and desc; no pruner, no filter; preemption bound 1 (thorough: 2)
+// verif:bounds 2 objects of 3 values (thorough tier: 2 values, the first two of each, and a single scan) with concrete keys: A=1,3,(no key field) B=2,3,4, or A=2,2,null B=2,4,null (Choose); pool order asc and desc; no pruner, no filter; the native replay repeats the experiment 200 times; preemption bound 1 (thorough: 2)
 // verif:outside as VerifH_C14_O11_partition_scan_order except that schedules are explored up to the bound; symbolic keys (VerifH_C14_O11_partition_scan_order); field/slice loads and stores are not preemption points (data-race freedom between sync points is assumed, not checked); sync.Pool is a per-path LIFO shared by all goroutines; the engine's zngio scanner has one worker per scanner
 func VerifH_C08_O6s_partition_scan_schedules() {
 	if verif.Thorough() {
@@ -592,6 +607,6 @@ func VerifH_C14_O11s_single_object_scan() {
 		same := got[i].tag == spec[i].tag && got[i].null == spec[i].null && (got[i].null || got[i].k == spec[i].k)
 		verif.Assert(same, "single-object-values-unchanged")
 	}
-	verif.Assert(eng.opened == 1 && eng.closed == 1, "object-readers-closed-at-end-of-stream")
+	verif.Assert(eng.opened == 1 && atomic.LoadInt32(&eng.closed) == 1, "object-readers-closed-at-end-of-stream")
 	verif.Reach("end")
 }
